@@ -95,7 +95,7 @@ theorem seqLike_phys {ext : Ext} {un : Bytes → String} {xs : SVals} {pe : Bool
       obtain ⟨rfl, _⟩ := hshape
       have hlv : lv = .bin bs := by
         cases ty <;> simp [isBinaryTy] at hbin <;>
-          (simp only [seqSpec, isUnknownVariant, bytesDT, Bool.false_eq_true, if_false, hbs] at hi; cases hi; rfl)
+          (simp only [seqSpec, isUnknownVariant, bytesDT, Bool.false_eq_true, if_false, (specBytes_ok_iff _ _).2 hbs] at hi; cases hi; rfl)
       subst hlv
       simp only [pushL, erase, scalarL, bytesOfL, lastOff, hl, Option.getD_some]
     · simp [notSupported, fail] at h
@@ -114,7 +114,7 @@ theorem seqLike_phys {ext : Ext} {un : Bytes → String} {xs : SVals} {pe : Bool
       have hlv : lv = .bin bs := by
         cases ty
         · exact absurd hbin (by decide)
-        · simp only [seqSpec, isUnknownVariant, viewDT, Bool.false_eq_true, if_false, hbs] at hi; cases hi; rfl
+        · simp only [seqSpec, isUnknownVariant, viewDT, Bool.false_eq_true, if_false, (specBytes_ok_iff _ _).2 hbs] at hi; cases hi; rfl
       subst hlv
       obtain ⟨d, extra, hr, _, _, hc⟩ := viewSeq_ok hp
       cases hr
@@ -138,7 +138,7 @@ theorem seqLike_phys {ext : Ext} {un : Bytes → String} {xs : SVals} {pe : Bool
       subst hv
       simp only [Shape] at hshape
       obtain ⟨rfl, _⟩ := hshape
-      simp only [seqSpec, isUnknownVariant, Bool.false_eq_true, if_false, hbs] at hi
+      simp only [seqSpec, isUnknownVariant, Bool.false_eq_true, if_false, (specBytes_ok_iff _ _).2 hbs] at hi
       have hlv : lv = .bin bs := by
         simp only [bind, Except.bind] at hi
         split at hi
